@@ -233,10 +233,13 @@ func Execute(p *Plan, scratch string) (res *Result) {
 	for _, c := range p.Clients {
 		for _, op := range c {
 			if op.Body != nil {
-				budget += int64(op.Body.Size) * 40
+				budget += bodyBudget(op.Body.Size)
 			}
 			if op.K == "bulk" {
 				budget += int64(op.Max) * 40000
+			}
+			if op.Raw != nil && op.Raw.BodyGen != nil {
+				budget += bodyBudget(op.Raw.BodyGen.Size)
 			}
 		}
 	}
@@ -333,6 +336,17 @@ func Execute(p *Plan, scratch string) (res *Result) {
 		}
 	}
 	return
+}
+
+// bodyBudget is the share of the step budget a body of the given size earns:
+// generous per byte for small bodies (byte-wise fragmentation), per block for
+// the megabytes beyond (nothing handles those byte by byte), so that a loop
+// that never ends is cut off in seconds whatever the size.
+func bodyBudget(size int) int64 {
+	if size <= 1<<20 {
+		return int64(size) * 40
+	}
+	return 40<<20 + int64(size-1<<20)/2
 }
 
 // normGraph reduces a wait-for graph to its shape: the multiset of
